@@ -369,6 +369,37 @@ def run(ctx):
                 except Exception as e:  # a build that raises (e.g. G1 with a short horizon) shows nothing about isolation
                     ctx.cov.setdefault("mirp_build_errors", []).append(f"{which}:{exc_cls(e)}")
         ctx.sample({"mirp": which, "orders": len(orders)})
+    # 3b. a formulation without variables is cached like any other (a MIRP without entry arcs, heuristic switched off)
+    from vrpqubo.applications.mirp import MIRP
+    for horizon in (3.0, 6.0):
+        def bare():
+            m = MIRP(cargo_size=1, time_horizon=horizon)
+            m.add_nodes("S1", 0.5, 0.5, 1.5)
+            m.add_nodes("D1", 1.0, -0.5, 1.5)
+            m.add_travel_arcs(lambda p, q: 1.0, vessel_speed=1, cost_per_unit_distance=1,
+                              supply_port_fees={"S1": 1}, demand_port_fees={"D1": 1})
+            m.add_exit_arcs()
+            return m
+        for name in ("arc", "path", "seq"):
+            m = bare()
+            snap0 = fp.mirp_snapshot(m)
+            try:
+                get = {"arc": m.get_arc_based, "path": m.get_path_based, "seq": m.get_sequence_based}[name]
+                first = get(make_feasible=False)
+                second = get(make_feasible=False)
+                third = get()
+            except Exception as e:  # noqa: a getter may refuse such a problem loudly
+                ctx.cov.setdefault("mirp_build_errors", []).append(f"bare:{horizon}:{name}:{exc_cls(e)}")
+                continue
+            dist["mirp_orders"] += 1
+            if second is not first or third is not first:
+                ctx.violation("oracle/mirp/not-cached",
+                              f"requesting the {name} formulation of a MIRP without entry arcs again returned a different object "
+                              f"(it has {first.get_num_variables()} variables)",
+                              {"mirp": ["bare", horizon], "formulation": name, "calls": "get(make_feasible=False) twice, then get()"}, True)
+            if fp.mirp_snapshot(m) != snap0:
+                ctx.violation("oracle/mirp/data-changed", f"MIRP data changed by get_{name} on a MIRP without entry arcs",
+                              {"mirp": ["bare", horizon], "formulation": name}, True)
     ctx.count(evaluations=dist["mirp_orders"], nontrivial=dist["mirp_orders"])
     ctx.cov["input_distribution"] = dist
     ctx.cov["rule"] = ("random source graphs with 2-4 formulations each, exercised by shuffled queries / heuristic / direct edits; "
